@@ -123,7 +123,7 @@ def contract_estimators(case):
     res = run_entry(entry, calc, mt, names, seqs, kind)
     site = f"est/{entry}/{calc}"
     ctx = f"{case}"
-    nontrivial = any(v["diffs"] > 0 and v["exact"] is not None for v in specs.values())
+    nontrivial = any(v["diffs"] > 0 and (v["exact"] is not None or v["alt"] is not None) for v in specs.values())
     if res[0] == "exc":
         return ("fail", f"{site}/raises:{res[1]}", f"{ctx}: {res[1]}: {res[2]}")
     if res[0] == "arith":
@@ -247,12 +247,40 @@ def gen_counts(tier, seed):
                         yield [entry, calc, "dna", ["s1", "s2"], [s1, s2], "array"]
     # up to sum 6 for the estimators whose formula needs all four bases (their first defined and first boundary
     # inputs sit there)
-    for size in range(S_max + 1, 7):
+    for size in (range(S_max + 1, 7) if thorough else (6,)):
         for ms in _count_multisets(cols, size):
             cl = list(ms)
             rnd.shuffle(cl)
             for calc in (["tn93", "paralinear", "logdet"] if thorough else ["tn93"]):
                 yield ["calc", calc, "dna", ["s1", "s2"], ["".join(c[0] for c in cl), "".join(c[1] for c in cl)], "array"]
+
+
+def _compositions(n, k):
+    """all ways of writing n as an ordered sum of k positive integers"""
+    if k == 1:
+        yield (n,)
+        return
+    for first in range(1, n - k + 2):
+        for rest in _compositions(n - first, k - 1):
+            yield (first,) + rest
+
+
+def gen_sparse_counts(tier, seed):
+    """two sequences, more columns but few column kinds: every count matrix of sum 7 (thorough 7..8) supported on
+    2..4 cells -- the smallest inputs on which the frequency matrix of paralinear / LogDet is exactly singular
+    although the sequences differ and no diagonal cell needs padding away"""
+    rnd = random.Random(seed)
+    thorough = tier == "thorough"
+    cols = [a + b for a in "ACGT" for b in "ACGT"]
+    for size in ((7, 8) if thorough else (7,)):
+        for k in ((2, 3, 4) if thorough else (4,)):
+            for cells in itertools.combinations(cols, k):
+                for comp in _compositions(size, k):
+                    cl = [c for c, m in zip(cells, comp) for _ in range(m)]
+                    rnd.shuffle(cl)
+                    seqs = ["".join(c[0] for c in cl), "".join(c[1] for c in cl)]
+                    for calc in (("paralinear", "logdet") if thorough else ("paralinear",)):
+                        yield ["calc", calc, "dna", ["s1", "s2"], seqs, "array"]
 
 
 def gen_triples(tier, seed):
@@ -551,7 +579,7 @@ _EST_FUNCS = ["evolve.fast_distance._PairwiseDistance.run / get_pairwise_distanc
               "AlignedSeqsBase.distance_matrix (drop_invalid False/True)", "DistanceMatrix.drop_invalid",
               "app.dist.fast_slow_dist(fast_calc=...)"]
 _EST_RULE = ("a case = (entry point, estimator, moltype, names, strings, alignment class); the whole returned matrix is "
-             "compared with the spec; non-trivial when some pair differs on a usable column and has a defined distance; "
+             "compared with the spec; non-trivial when some pair differs on a usable column and has a defined (published or padded) distance; "
              "distinct by hash of the case")
 
 BOUNDED = {
@@ -568,7 +596,13 @@ BOUNDED = {
         "bound": "two sequences realising every 4x4 count matrix of sum 1..4 (thorough 1..5): columns in a seeded order, "
                  "with 1-3 columns holding one of -N?RYW interspersed and (sum <= 3, thorough all) also without; 7 "
                  "estimators; calculator object, plus aln.distance_matrix for sum <= 3 (thorough: all noisy ones); "
-                 "beyond that up to sum 6: tn93 (thorough also paralinear, logdet) through the calculator object",
+                 "sum 6 as well: tn93 (thorough also paralinear, logdet) through the calculator object",
+        "rule": _EST_RULE, "shards": 16,
+    },
+    "estimators_sparse_counts": {
+        "gen": gen_sparse_counts, "contract": contract_estimators, "functions": _EST_FUNCS,
+        "bound": "two sequences realising every 4x4 count matrix of sum 7 (thorough 7..8) with 4 (thorough 2..4) non-zero "
+                 "cells, columns in a seeded order; paralinear (thorough also logdet) through the calculator object",
         "rule": _EST_RULE, "shards": 16,
     },
     "estimators_triples": {
